@@ -1,5 +1,5 @@
 (* Invariants of the FairLock model over every label sequence (including cancellation of any waiter at any time). *)
-From Coq Require Import List Arith Bool Lia Sorting.Sorted Sorting.Permutation.
+From Coq Require Import List Arith Bool Lia ZifyBool Sorting.Sorted.
 From EN Require Import Conc.FairLock.
 Import ListNotations.
 
@@ -275,4 +275,175 @@ Proof.
   destruct (fl_locked s) eqn:El.
   - left; auto.
   - right. specialize (Iw eq_refl). destruct (fl_waiters s) as [|w r]; [congruence|]. eauto.
+Qed.
+
+(* ---- FIFO: tickets are handed out in arrival order; the acquisition log followed by the queue is increasing *)
+
+Definition fl_line (s : fl) : list nat := fl_acq s ++ map w_ticket (fl_waiters s).
+Definition fl_all (s : fl) : list nat := fl_acq s ++ map w_ticket (fl_waiters s) ++ fl_cancelled s.
+
+Record fl_tk (s : fl) : Prop := mkTk {
+  tk_sorted : StronglySorted lt (fl_line s);
+  tk_bound : Forall (fun k => k < fl_next s) (fl_line s);
+  tk_count : forall k, count_occ Nat.eq_dec (fl_all s) k = if k <? fl_next s then 1 else 0
+}.
+
+Lemma ss_app_single : forall l n, StronglySorted lt l -> Forall (fun k => k < n) l -> StronglySorted lt (l ++ [n]).
+Proof.
+  induction l as [|x l IH]; simpl; intros n H B.
+  - constructor; constructor.
+  - inversion H; subst. inversion B; subst. constructor; auto.
+    apply Forall_app; split; auto.
+Qed.
+
+Lemma Forall_filter_map : forall (P : nat -> Prop) f (ws : list waiter),
+  Forall P (map w_ticket ws) -> Forall P (map w_ticket (filter f ws)).
+Proof.
+  intros P f ws H. rewrite Forall_forall in *. intros x Hx. apply H.
+  apply in_map_iff in Hx. destruct Hx as [w [E Hw]]. apply filter_In in Hw. apply in_map_iff. exists w; tauto.
+Qed.
+
+Lemma ss_filter : forall f a (ws : list waiter),
+  StronglySorted lt (a ++ map w_ticket ws) -> StronglySorted lt (a ++ map w_ticket (filter f ws)).
+Proof.
+  intros f a; induction a as [|x a IH]; simpl; intros ws H.
+  - induction ws as [|w r IHr]; simpl in *; auto.
+    inversion H; subst. destruct (f w); simpl; auto.
+    constructor; auto. apply Forall_filter_map; auto.
+  - inversion H; subst. constructor; auto.
+    apply Forall_app in H3. destruct H3 as [Ha Hw]. apply Forall_app; split; auto.
+    apply Forall_filter_map; auto.
+Qed.
+
+Lemma count_remove : forall t ws w k,
+  NoDup (map w_tid ws) -> find_waiter t ws = Some w ->
+  count_occ Nat.eq_dec (map w_ticket ws) k
+  = count_occ Nat.eq_dec (map w_ticket (remove_waiter t ws)) k + (if Nat.eq_dec (w_ticket w) k then 1 else 0).
+Proof.
+  intros t ws w k; induction ws as [|w0 r IH]; simpl; intros N F; [discriminate|].
+  inversion N; subst. unfold find_waiter in F. simpl in F. unfold is_tid at 1.
+  unfold is_tid at 1 in F. destruct (Nat.eqb (w_tid w0) t) eqn:E; simpl.
+  - inversion F; subst. apply Nat.eqb_eq in E. subst t. rewrite remove_waiter_notin by auto.
+    destruct (Nat.eq_dec (w_ticket w) k); lia.
+  - specialize (IH H2 F). destruct (Nat.eq_dec (w_ticket w0) k); lia.
+Qed.
+
+Lemma fl_tk_init : fl_tk fl_init.
+Proof. constructor; simpl; auto; constructor. Qed.
+
+Lemma seq_count_step : forall n k (c : nat),
+  c = (if k <? n then 1 else 0) -> c + (if Nat.eq_dec n k then 1 else 0) = if k <? S n then 1 else 0.
+Proof.
+  intros n k c H. subst. destruct (Nat.eq_dec n k); destruct (k <? n) eqn:A; destruct (k <? S n) eqn:B; lia.
+Qed.
+
+Lemma fl_acquire_tk : forall t s s' got, fl_inv s -> fl_tk s -> fl_acquire t s = (s', got) -> fl_tk s'.
+Proof.
+  intros t s s' got I T H. unfold fl_acquire in H. destruct T as [Ts Tb Tc].
+  unfold fl_line, fl_all in *.
+  destruct (fl_locked s || negb (is_nil (fl_waiters s))) eqn:E; inversion H; subst; clear H;
+    constructor; unfold fl_line, fl_all; simpl.
+  - rewrite map_app, app_assoc. simpl. apply ss_app_single; auto.
+  - rewrite map_app, app_assoc. simpl. apply Forall_app; split.
+    + eapply Forall_impl; [|exact Tb]. simpl; intros; lia.
+    + constructor; auto.
+  - intros k. specialize (Tc k). rewrite map_app. simpl.
+    repeat rewrite count_occ_app in *. simpl. rewrite <- seq_count_step with (c := count_occ Nat.eq_dec (fl_acq s) k + (count_occ Nat.eq_dec (map w_ticket (fl_waiters s)) k + count_occ Nat.eq_dec (fl_cancelled s) k)); auto.
+    destruct (Nat.eq_dec (fl_next s) k); lia.
+  - apply orb_false_iff in E. destruct E as [_ Ew]. apply negb_false_iff in Ew.
+    destruct (fl_waiters s); [|discriminate]. simpl in *. rewrite app_nil_r in *. apply ss_app_single; auto.
+  - apply orb_false_iff in E. destruct E as [_ Ew]. apply negb_false_iff in Ew.
+    destruct (fl_waiters s); [|discriminate]. simpl in *. rewrite app_nil_r in *. apply Forall_app; split.
+    + eapply Forall_impl; [|exact Tb]. simpl; intros; lia.
+    + constructor; auto.
+  - intros k. specialize (Tc k).
+    repeat rewrite count_occ_app in *. simpl. rewrite <- seq_count_step with (c := count_occ Nat.eq_dec (fl_acq s) k + (count_occ Nat.eq_dec (map w_ticket (fl_waiters s)) k + count_occ Nat.eq_dec (fl_cancelled s) k)); auto.
+    destruct (Nat.eq_dec (fl_next s) k); lia.
+Qed.
+
+Lemma fl_resume_tk : forall t s s', fl_inv s -> fl_tk s -> fl_resume t s = Some s' -> fl_tk s'.
+Proof.
+  intros t s s' I T H. unfold fl_resume in H. destruct I as [Ih Is Iw Ind Id]. destruct T as [Ts Tb Tc].
+  destruct (find_waiter t (fl_waiters s)) as [w|] eqn:F; [|discriminate].
+  destruct (w_set w) eqn:S; [|discriminate]. inversion H; subst; clear H.
+  unfold fl_line, fl_all in *.
+  destruct (fl_waiters s) as [|w0 r] eqn:EW; [discriminate|].
+  destruct Is as [Is1 Is2].
+  assert (w = w0) by (eapply set_waiter_is_head; eauto). subst w0.
+  destruct (find_waiter_some _ _ _ F) as [_ Et]. subst t.
+  assert (RH := remove_head w r Ind).
+  constructor; unfold fl_line, fl_all; cbn [fl_acq fl_waiters fl_cancelled fl_next]; rewrite RH.
+  - rewrite <- app_assoc. exact Ts.
+  - rewrite <- app_assoc. exact Tb.
+  - intros k. specialize (Tc k). cbn [map] in Tc.
+    change (w_ticket w :: map w_ticket r ++ fl_cancelled s)
+      with ([w_ticket w] ++ map w_ticket r ++ fl_cancelled s) in Tc.
+    repeat rewrite count_occ_app in *. cbn [count_occ] in *.
+    destruct (Nat.eq_dec (w_ticket w) k); lia.
+Qed.
+
+Lemma fl_cancel_tk : forall t s s', fl_inv s -> fl_tk s -> fl_cancel t s = Some s' -> fl_tk s'.
+Proof.
+  intros t s s' I T H. unfold fl_cancel in H. destruct I as [Ih Is Iw Ind Id]. destruct T as [Ts Tb Tc].
+  destruct (find_waiter t (fl_waiters s)) as [w|] eqn:F; [|discriminate].
+  inversion H; subst; clear H. unfold fl_line, fl_all in *.
+  assert (E : map w_ticket (if fl_locked s then remove_waiter t (fl_waiters s)
+                            else wake_up_first (remove_waiter t (fl_waiters s)))
+              = map w_ticket (remove_waiter t (fl_waiters s))).
+  { destruct (fl_locked s); auto. apply wake_tickets. }
+  constructor; unfold fl_line, fl_all; simpl; rewrite E.
+  - apply ss_filter; auto.
+  - apply Forall_app in Tb. destruct Tb as [Ta Tw]. apply Forall_app; split; auto.
+    apply Forall_filter_map; auto.
+  - intros k. specialize (Tc k). repeat rewrite count_occ_app in *. simpl.
+    rewrite (count_remove t (fl_waiters s) w k Ind F) in Tc.
+    destruct (Nat.eq_dec (w_ticket w) k); lia.
+Qed.
+
+Lemma fl_release_tk : forall t s s', fl_tk s -> fl_release t s = Some s' -> fl_tk s'.
+Proof.
+  intros t s s' T H. unfold fl_release in H. destruct T as [Ts Tb Tc].
+  destruct (fl_locked s); [|discriminate]. inversion H; subst; clear H.
+  unfold fl_line, fl_all in *.
+  constructor; unfold fl_line, fl_all; simpl; rewrite wake_tickets; auto.
+Qed.
+
+Lemma fl_step_tk : forall s l s' o, fl_inv s -> fl_tk s -> fl_step s l = Some (s', o) -> fl_tk s'.
+Proof.
+  intros s l s' o I T H. destruct l as [t|t|t|t]; simpl in H.
+  - destruct (fl_idle t s) eqn:E; [|discriminate].
+    destruct (fl_acquire t s) as [s1 got] eqn:A. inversion H; subst. eapply fl_acquire_tk; eauto.
+  - destruct (fl_resume t s) eqn:A; inversion H; subst. eapply fl_resume_tk; eauto.
+  - destruct (fl_cancel t s) eqn:A; inversion H; subst. eapply fl_cancel_tk; eauto.
+  - destruct (mem_tid t (fl_holders s)) eqn:M; [|discriminate].
+    destruct (fl_release t s) eqn:A; inversion H; subst. eapply fl_release_tk; eauto.
+Qed.
+
+Lemma fl_run_tk : forall ls s s', fl_inv s -> fl_tk s -> fl_run s ls = Some s' -> fl_tk s'.
+Proof.
+  induction ls as [|l ls IH]; simpl; intros s s' I T H.
+  - inversion H; subst; auto.
+  - destruct (fl_step s l) as [[s1 o]|] eqn:E; [|discriminate].
+    eapply IH; [| |eauto]. eapply fl_step_inv; eauto. eapply fl_step_tk; eauto.
+Qed.
+
+Lemma fairlock_fifo_proof :
+  forall ls s, fl_run fl_init ls = Some s ->
+    StronglySorted lt (fl_acq s ++ map w_ticket (fl_waiters s)) /\
+    (forall k, count_occ Nat.eq_dec (fl_acq s ++ map w_ticket (fl_waiters s) ++ fl_cancelled s) k
+               = if k <? fl_next s then 1 else 0).
+Proof.
+  intros ls s H. apply fl_run_tk in H; [|apply fl_inv_init|apply fl_tk_init].
+  destruct H as [Ts Tb Tc]. split; auto.
+Qed.
+
+(* a ticket is the arrival rank: the k-th call of acquire() gets ticket k *)
+Lemma fl_ticket_is_arrival_rank :
+  forall t s s' got, fl_acquire t s = (s', got) ->
+    fl_next s' = S (fl_next s) /\
+    (if got then fl_acq s' = fl_acq s ++ [fl_next s]
+     else fl_waiters s' = fl_waiters s ++ [mkW t (fl_next s) false]).
+Proof.
+  intros t s s' got H. unfold fl_acquire in H.
+  destruct (fl_locked s || negb (is_nil (fl_waiters s))); inversion H; subst; simpl; auto.
 Qed.
